@@ -220,6 +220,17 @@ def main():
     props = [json.loads(l) for l in open(os.path.join(V, "properties.jsonl"))]
     checks = []
     for pid, c in CLAIMS.items():
+        c = dict(c)
+        if pid in SYSTEM:
+            c["text"] += (" In addition the behaviours of the composite specification FsSystem.tla (two sessions in which current "
+                          "schema, DML, failing statements, transactions, session variables, execute_string scripts and no-op'd "
+                          "statements meet; the whole projected state is observed through both connections after every step) are "
+                          "replayed on the code, judged by TLC, and the rejected steps attributed to this property are reported.")
+            c["technique"] += "; behaviours of the composite TLA+ specification replayed and judged by TLC"
+        if pid in PASSIVE:
+            c["text"] += (" The executions of the repository's own test-suite, recorded passively (one event per public call), are "
+                          "validated step by step by TLC against this property's clauses of the composite trace specification FakeSnow.tla.")
+            c["technique"] += "; trace validation of the recorded repository test-suite against the composite TLA+ trace specification"
         checks.append({
             "property_id": pid,
             "quick_cmd": c.get("quick", f"./vcheck {pid} --tier quick"),
@@ -255,6 +266,8 @@ def main():
 
 
 NA = {}
+SYSTEM = {"C03", "C04", "C06", "C07", "C13", "C15", "C16"}     # harness/core.py SYSTEM_PROPS
+PASSIVE = {"C03", "C04", "C05", "C06", "C07"}                  # harness/core.py PASSIVE_PROPS
 
 if __name__ == "__main__":
     main()
